@@ -52,6 +52,8 @@ type codec struct {
 	// post is an extra type-specific law run on every decoded value; canon is
 	// the generator's encoding when the input was exactly that, else nil.
 	post func(v any, canon []byte) string
+	// norm, if set, normalises an encoding before encodings are compared
+	norm func([]byte) []byte
 	// weight in the fuzz schedule
 	weight int
 }
@@ -324,7 +326,7 @@ func allCodecs() []*codec {
 			sfx = "+sr"
 		}
 		add(&codec{
-			name: "p2p.message" + sfx, typ: "p2p-message", entry: "Message.Decode", weight: 6,
+			name: "p2p.message" + sfx, typ: "p2p-message", entry: "Message.Decode", weight: 6, norm: plainFrame,
 			gen: func(r *rng.R) (any, string) {
 				for {
 					var sh []string
@@ -354,11 +356,8 @@ func allCodecs() []*codec {
 				return valueDiff(&x.Payload, &y.Payload)
 			},
 			ident: func(v any) identity {
+				// transaction and block payloads: see the path laws (clause c)
 				switch p := v.(*msgBox).m.Payload.(type) {
-				case *transaction.Transaction:
-					return txIdent(p)
-				case *block.Block:
-					return blockIdent(p)
 				case *payload.Extensible:
 					return identity{hash: hx(p.Hash()), size: -1}
 				case *payload.P2PNotaryRequest:
